@@ -258,7 +258,22 @@ static Scn limitL(int T) {  // external puts straight into a limiter whose succe
         barrier(); if (id == 0) { waitret(*G, 1); release_helpers(); } else help(id);
     }, nullptr};
 }
+static Scn limitD(int T, bool serial_worker) {   // an INTEGRAL decrementer gives slots back in pairs: the successor sends decrement(2) after every second message.  With a lightweight
+    return {3, [T, serial_worker](int id) {         // successor the body runs inside the limiter's try_put, so the batch arrives while that put is in flight and only one of the two is counted yet
+        static limiter_node<int, int>* LD; static std::atomic<int> seen;
+        if (id == 0) { G = new graph; LD = new limiter_node<int, int>(*G, (size_t)T); vh::rawstore(seen, 0);
+            auto body = [](int m) noexcept { __atomic_add_fetch(&g_live, 1, __ATOMIC_SEQ_CST); TR.emit("{\"e\":\"BB\",\"n\":3,\"m\":%d}", m);
+                cosched::yield_point(); TR.emit("{\"e\":\"BE\",\"n\":3,\"m\":%d}", m); __atomic_sub_fetch(&g_live, 1, __ATOMIC_SEQ_CST);
+                if (seen.fetch_add(1) == 1) { TR.emit("{\"e\":\"DecB\",\"n\":2,\"k\":2}"); LD->decrementer().try_put(2); } return m; };      // ONE batch, after the second message: exactly two more may pass
+            if (serial_worker) reg(3, new function_node<int, int>(*G, serial, body)); else reg(3, new function_node<int, int, lightweight>(*G, unlimited, body));
+            node(2, "limiter", 0, T); node(3, "fn", serial_worker ? 1 : 0); make_edge(*LD, *RX[3]); edge(2, 3); publish(); }
+        await_graph();
+        for (int k = 0; k < 4; k++) { int m = 1 + id * 4 + k; msg(m); put(*LD, 2, m, m); }
+        barrier(); if (id == 0) { waitret(*G, 1); release_helpers(); } else help(id);
+    }, nullptr};
+}
 static Scn make(const std::string& s) {
+    if (s == "limitD2") return limitD(2, false); if (s == "limitD3") return limitD(3, false); if (s == "limitD2s") return limitD(2, true);
     if (s == "limitL1") return limitL(1); if (s == "limitL2") return limitL(2);
     if (s == "twolim") return twolim();
     if (s == "prio") return prio(); if (s == "reserve") return reserve(); if (s == "ow") return owr(false); if (s == "wo") return owr(true); if (s == "split") return route(false); if (s == "indexer") return route(true);
